@@ -351,6 +351,20 @@ class C03(EvalProp):
             g = gen.Gen(self.rng, prof)
             for i in range(n // 2):
                 out.append(self.make_case("%s%d" % (tag, i), *g.pair()))
+        # long arrays: indices of two, three and four digits in the reported paths, reached through every kind of selector
+        big = ("a",) + tuple(("i", i) for i in range(1234))
+        wrap = o_(k=big, m=("a", big, o_(z=big)))
+        longq = [("q", ("sel", ("idx", 105))), ("q", ("sel", ("idx", 1000))), ("q", ("sel", ("idx", 1005))), ("q", ("sel", ("idx", -229))),
+                 ("q", ("sel", ("idx", 1233))), ("q", ("sel", ("idx", 99))), ("q", ("sel", ("idx", 100))), ("q", ("sel", ("idx", 110))),
+                 ("q", ("sel", ("slice", 95, 1110, 5))), ("q", ("sel", ("slice", None, None, -101))), ("q", ("sel", ("slice", 998, 1012, None))),
+                 ("q", ("sel", "wild")), ("q", ("sels", ("idx", 1001), ("idx", 101), ("slice", 200, 210, 3))),
+                 ("q", ("sel", ("filter", ("atom", ("cmp", "ge", ("sq", "cur"), ("lit", ("int", 995)))))))]
+        for qi, q in enumerate(longq):
+            out.append(self.make_case("L%d" % qi, q, big))
+        for qi, q in enumerate([("q", ("desc", ("sel", ("idx", 1005)))), ("q", ("desc", ("sel", ("slice", 100, 110, None)))),
+                                ("q", ("sel", ("name", S("m"))), ("sel", ("idx", 1)), ("sel", ("name", S("z"))), ("sel", ("idx", 207))),
+                                ("q", ("desc", ("sel", ("filter", ("atom", ("cmp", "eq", ("sq", "cur"), ("lit", ("int", 1200))))))))]):
+            out.append(self.make_case("M%d" % qi, q, wrap))
         return out
 
     def obs(self, items):
@@ -1218,6 +1232,16 @@ class C09(PropCheck):
                     r = self.rng.choice(self.REPL)
                     out.append(Case("c%d" % cid, "REF", [d, S(text), r], {"path": text, "why": why, "plain": loc_plain_py(loc)}))
                     cid += 1
+        # long arrays: index steps of two, three and four digits
+        big = ("a",) + tuple(("i", i) for i in range(1234))
+        for d, pre, ploc in ((big, "$", ()), (o_(k=big, j=("a", big)), "$['k']", (("n", "k"),)), (o_(k=big, j=("a", big)), "$['j'][0]", (("n", "j"), ("i", 0)))):
+            for i in (9, 10, 11, 19, 20, 99, 100, 101, 105, 110, 111, 999, 1000, 1001, 1005, 1010, 1100, 1233, 1234, 1240, 12330, 100000):
+                r = self.rng.choice(self.REPL)
+                out.append(Case("c%d" % cid, "REF", [d, S("%s[%d]" % (pre, i)), r], {"path": "%s[%d]" % (pre, i), "why": "long-array", "plain": True}))
+                cid += 1
+            for text, why in (("%s['105']" % pre, "index-as-name"), ("%s[-1]" % pre, "negative"), ("%s[0105]" % pre, "leading-zero"), ("%s[1 05]" % pre, "blank-in-index")):
+                out.append(Case("c%d" % cid, "REF", [d, S(text), self.rng.choice(self.REPL)], {"path": text, "why": why, "plain": True}))
+                cid += 1
         # paths reported by queries are fed back
         g = gen.Gen(self.rng, gen.Profile(odd_names=True, max_segments=3, filter_depth=1))
         for qi in range(n // 2):
@@ -1414,9 +1438,67 @@ class C15(EvalProp):
     def obs(self, items):
         return locs(items)
 
+    # --- member order: a Queryable may present the members of an object in any order (serde_json with preserve_order,
+    # an insertion-ordered map, ...).  Equality of objects must not depend on it; wildcards, descendants and filters must
+    # follow it.  These cases run the engine over the second Queryable only, built with the members in the order written
+    # (GENU), against the model and the RFC semantics evaluated on the same ordered view.
+    def shuffled(self, d):
+        if isinstance(d, tuple) and d and d[0] == "a":
+            return ("a",) + tuple(self.shuffled(x) for x in d[1:])
+        if isinstance(d, tuple) and d and d[0] == "o":
+            ms = [(k, self.shuffled(v)) for k, v in d[1:]]
+            self.rng.shuffle(ms)
+            return ("o",) + tuple(ms)
+        return d
+
+    def unsorted_case(self, cid, q, d, meta=None):
+        m = dict(meta or {})
+        m["member_order"] = "as written"
+        return Case(cid, "EVAL", [q, d], m, impl=("GENU", [q, d]))
+
+    def extra_cases(self):
+        out = []
+        g = gen.Gen(self.rng, self.profile())
+        n = 1500 if self.tier == "quick" else 20000
+        for i in range(n):
+            q, d = g.pair()
+            out.append(self.unsorted_case("u", q, self.shuffled(d)))
+        # equal objects whose members come in different orders, compared with every operator, directly and nested
+        def ob(*kv):
+            return ("o",) + tuple((S(k), v) for k, v in kv)
+        A = ob(("a", ("i", 1)), ("b", ("i", 2)), ("c", S("x")))
+        B = ob(("c", S("x")), ("a", ("i", 1)), ("b", ("i", 2)))
+        C = ob(("b", ("i", 2)), ("c", S("x")), ("a", f_(1.0)))
+        Dd = ob(("a", ("i", 1)), ("b", ("i", 3)), ("c", S("x")))
+        E = ob(("a", ("i", 1)), ("b", ("i", 2)))
+        N1 = ob(("k", A), ("j", ("a", B, C)))
+        N2 = ob(("j", ("a", C, A)), ("k", B))
+        objs = [A, B, C, Dd, E, N1, N2, ob(), ob(("z", ob()), ("y", ("a",))), ob(("y", ("a",)), ("z", ob()))]
+        rows = ("a",) + tuple(ob(("y", y), ("x", x)) for x in objs for y in objs)
+        refdoc = ob(("rows", rows), ("ref", B), ("list", ("a", C, N2, E)))
+        x, y = ("sq", "cur", ("n", S("x"))), ("sq", "cur", ("n", S("y")))
+        for op in OPS6:
+            out.append(self.unsorted_case("u", filt(("cmp", op, x, y)), rows, {"table": "permuted-objects", "op": op}))
+            q = ("q", ("sel", ("name", S("rows"))), ("sel", ("filter", ("atom", ("cmp", op, ("sq", "cur", ("n", S("x"))), ("sq", "root", ("n", S("ref"))))))))
+            out.append(self.unsorted_case("u", q, refdoc, {"table": "permuted-objects-root", "op": op}))
+        for name in ("in", "nin", "none_of", "any_of", "subset_of"):
+            for args in ((("argt", ("rel", ("sel", ("name", S("x"))))), ("argt", ("abs", ("sel", ("name", S("list")))))),
+                         (("argt", ("abs", ("sel", ("name", S("list"))))), ("argt", ("abs", ("sel", ("name", S("list"))))))):
+                q = ("q", ("sel", ("name", S("rows"))), ("sel", ("filter", ("atom", ("atest", ("tfn", ("custom", S(name)) + args), 0)))))
+                out.append(self.unsorted_case("u", q, refdoc, {"table": "permuted-objects-ext", "fn": name}))
+        # member order is what wildcards, descendants and filters follow
+        for q in (("q", ("sel", "wild")), ("q", ("desc", ("sel", "wild"))), ("q", ("sel", "wild"), ("sel", "wild")),
+                  ("q", ("sel", ("filter", ("atom", ("atest", ("rel", ("sel", ("name", S("a")))), 0))))),
+                  ("q", ("desc", ("sel", ("name", S("a")))))):
+            for dd in (N1, N2, refdoc, ob(("b", A), ("a", B), ("c", C))):
+                out.append(self.unsorted_case("u", q, dd, {"table": "member-order"}))
+        return out
+
     def extra_checks(self, c, ans, I, M, R):
         flags = ans.get("I", [])[2:]
         if "same=0" in flags:
+            if c.meta.get("member_order"):
+                return "the engine gives different results under the two accessor styles of the second Queryable"
             return "the engine gives different results over the second Queryable and over serde_json::Value for the same document"
         return None
 
